@@ -631,7 +631,7 @@ func (cfg *PanicCfg) nonNilValue1(v ssa.Value, depth int) (bool, string) {
 	case *ssa.Call:
 		if f := x.Call.StaticCallee(); f != nil {
 			switch f.String() {
-			case "context.WithCancel", "context.WithCancelCause", "context.WithTimeout", "context.WithDeadline":
+			case "context.WithCancel", "context.WithCancelCause", "context.WithTimeout", "context.WithDeadline", "context.AfterFunc":
 				return true, "library result"
 			}
 			if load.InModule(f) && f.Blocks != nil && depth < 3 {
@@ -681,6 +681,30 @@ func (cfg *PanicCfg) nonNilValue1(v ssa.Value, depth int) (bool, string) {
 		return true, "slice expression"
 	case *ssa.ChangeType:
 		return cfg.nonNilValue(x.X, depth)
+	case *ssa.UnOp:
+		// a load of a local cell (a named result, a captured variable) that is
+		// only ever assigned non-nil values and whose address goes nowhere else
+		if al, ok := x.X.(*ssa.Alloc); ok && x.Op == token.MUL && depth < 4 && al.Referrers() != nil {
+			stores := 0
+			for _, ref := range *al.Referrers() {
+				switch r := ref.(type) {
+				case *ssa.Store:
+					if r.Addr != ssa.Value(al) {
+						return false, "address of the cell is stored"
+					}
+					stores++
+					if ok, _ := cfg.nonNilValue(r.Val, depth+1); !ok {
+						return false, "the cell may be assigned nil: " + cfg.P.Pos(r.Pos())
+					}
+				case *ssa.UnOp, *ssa.DebugRef:
+				default:
+					return false, "the cell's address escapes"
+				}
+			}
+			if stores > 0 {
+				return true, "local cell only assigned non-nil values"
+			}
+		}
 	}
 	return false, fmt.Sprintf("%T", v)
 }
